@@ -326,6 +326,67 @@ namespace
             return n * sizeof(E);
         }
     };
+    // single-pass iterator producing n value-initialised elements (exercises the growing
+    // iterator-range constructor of joint_array)
+    template <class E>
+    struct GenIt
+    {
+        using iterator_category = std::input_iterator_tag;
+        using value_type        = E;
+        using difference_type   = std::ptrdiff_t;
+        using pointer           = const E*;
+        using reference         = const E&;
+        size_t                  i;
+        E                       v{};
+        reference operator*() const
+        {
+            return v;
+        }
+        GenIt& operator++()
+        {
+            ++i;
+            return *this;
+        }
+        GenIt operator++(int)
+        {
+            GenIt t = *this;
+            ++i;
+            return t;
+        }
+        bool operator==(const GenIt& o) const
+        {
+            return i == o.i;
+        }
+        bool operator!=(const GenIt& o) const
+        {
+            return i != o.i;
+        }
+    };
+    template <class E>
+    struct JR : fm::joint_type<JR<E>>
+    {
+        fm::joint_array<E> arr;
+        JR(fm::joint j, size_t n, size_t) : fm::joint_type<JR<E>>(j), arr(GenIt<E>{0}, GenIt<E>{n}, *this) {}
+        JR(fm::joint j, const JR& o) : fm::joint_type<JR<E>>(j), arr(o.arr, *this) {}
+        ~JR()
+        {
+            ++*g_dtor_count;
+        }
+        void ranges(std::vector<Range>& out) const
+        {
+            out.push_back({reinterpret_cast<const char*>(arr.data()), arr.size() * sizeof(E), alignof(E)});
+        }
+        void fill(unsigned char seed)
+        {
+            for (size_t i = 0; i < arr.size(); ++i)
+                std::memset(&arr[i], seed + int(i), sizeof(E));
+        }
+        bool same(const JR& o) const
+        {
+            return arr.size() == o.arr.size()
+                   && (arr.size() == 0 || std::memcmp(arr.data(), o.arr.data(), arr.size() * sizeof(E)) == 0);
+        }
+    };
     template <class E1, class E2>
     struct JB : fm::joint_type<JB<E1, E2>>
     {
@@ -1077,7 +1138,7 @@ namespace
             using E8  = El<8, 8>;
             using E16 = El<16, 16>;
             using E3  = El<3, 1>;
-            switch (P(0) % 14)
+            switch (P(0) % 17)
             {
             case 0:
                 return run_c11<JA<E1>>("JA<1,1>", p, ci);
@@ -1105,6 +1166,12 @@ namespace
                 return run_c11<JV<E16>>("JV<16>", p, ci);
             case 12:
                 return run_c11<JV<E3>>("JV<3>", p, ci);
+            case 14:
+                return run_c11<JR<E1>>("JR<1,1>", p, ci);
+            case 15:
+                return run_c11<JR<E4>>("JR<4,4>", p, ci);
+            case 16:
+                return run_c11<JR<E3>>("JR<3,1>", p, ci);
             default:
                 return run_c11<JM>("JM", p, ci);
             }
